@@ -4,3 +4,5 @@ import TransportVerif.Props.C10
 #print axioms TV.Props.C10.blocked_read_released_at_expiry
 #print axioms TV.Props.C10.timeout_persists
 #print axioms TV.Props.C10.later_or_zero_deadline_reads_again
+#print axioms TV.Props.C10.close_keeps_deadline
+#print axioms TV.Props.C10.closed_never_blocks
